@@ -298,7 +298,11 @@ func runCase(r *vk.Run, c Case, class string) *vk.Fail {
 			for _, t := range c.Templates {
 				srcs = append(srcs, t.Src)
 			}
-			return map[string]interface{}{"templates": srcs, "actions": acts, "first_result": sts[0].first.String()}
+			first := "(template 0 was not executed in this history)"
+			if sts[0].first != nil {
+				first = sts[0].first.String()
+			}
+			return map[string]interface{}{"templates": srcs, "actions": acts, "first_result": first}
 		})
 	}
 	return nil
